@@ -51,6 +51,59 @@ type Service struct {
 	metrics       *metrics
 	blockMap      map[peer.ID]blockInfo
 	blockMu       sync.Mutex
+	hsInFlight    map[peer.ID]*inboundHandshake
+	hsMu          sync.Mutex
+}
+
+// inboundHandshake tracks the handshake handlers currently running for a remote
+// peer; done is closed when the last of them has returned.
+type inboundHandshake struct {
+	count int
+	done  chan struct{}
+}
+
+// beginInboundHandshake marks an inbound handshake with the peer as running and
+// returns the function that marks it finished.
+func (s *Service) beginInboundHandshake(peerID peer.ID) func() {
+	s.hsMu.Lock()
+	defer s.hsMu.Unlock()
+
+	if s.hsInFlight == nil {
+		s.hsInFlight = make(map[peer.ID]*inboundHandshake)
+	}
+	h, ok := s.hsInFlight[peerID]
+	if !ok {
+		h = &inboundHandshake{done: make(chan struct{})}
+		s.hsInFlight[peerID] = h
+	}
+	h.count++
+
+	return func() {
+		s.hsMu.Lock()
+		defer s.hsMu.Unlock()
+
+		h.count--
+		if h.count == 0 {
+			delete(s.hsInFlight, peerID)
+			close(h.done)
+		}
+	}
+}
+
+// waitInboundHandshake blocks while an inbound handshake with the peer is
+// still being processed.
+func (s *Service) waitInboundHandshake(peerID peer.ID) {
+	s.hsMu.Lock()
+	h, ok := s.hsInFlight[peerID]
+	s.hsMu.Unlock()
+	if !ok {
+		return
+	}
+
+	select {
+	case <-h.done:
+	case <-s.baseCtx.Done():
+	}
 }
 
 type ProviderRegistry interface {
@@ -212,6 +265,7 @@ func (s *Service) SetNotifier(n p2p.Notifier) {
 
 func (s *Service) handleConnectReq(streamlibp2p network.Stream) {
 	peerID := streamlibp2p.Conn().RemotePeer()
+	defer s.beginInboundHandshake(peerID)()
 
 	stream := newStream(streamlibp2p, nil, nil)
 	peer, err := s.hsSvc.Handle(s.baseCtx, stream, peerID)
@@ -305,6 +359,14 @@ func (s *Service) AddStreamHandlers(streams ...p2p.StreamDesc) {
 			func(streamlibp2p network.Stream) {
 				peerID := streamlibp2p.Conn().RemotePeer()
 				p, found := s.peers.getPeer(peerID)
+				if !found {
+					// The remote's Connect returns as soon as it has written its
+					// last handshake message, so its first streams can arrive
+					// while our handshake handler is still verifying that message
+					// and has not registered the peer yet.
+					s.waitInboundHandshake(peerID)
+					p, found = s.peers.getPeer(peerID)
+				}
 				if !found {
 					s.logger.Error("received stream from unknown peer", "peer", peerID)
 					_ = streamlibp2p.Reset()
